@@ -11,10 +11,13 @@ def render_wcase(c, r, step, limit):
         if op[0] == "flush":
             ops.append("Flush")
             continue
+        if op[0] == "rejoin":       # no counterpart in the model: split/join must not touch the write state
+            continue
         m = "Good %s" % coq_bytes(bytes.fromhex(orc["good"])) if "good" in orc else "BadKey %d%%nat" % orc["bad"]
         ops.append("%s (%s)" % ("Enqueue" if op[0] in ("enq", "cenq") else "Send", m))
-    expect = ["[%d;%d;%d]" % (WRES.get(o["res"], 99), o["st"][0], o["st"][1]) for o in r["ops"]]
-    before = [str(o["before"][1]) for o in r["ops"]]
+    kept = [o for op, o in zip(c["ops"], r["ops"]) if op[0] != "rejoin"]
+    expect = ["[%d;%d;%d]" % (WRES.get(o["res"], 99), o["st"][0], o["st"][1]) for o in kept]
+    before = [str(o["before"][1]) for o in kept]
     script = ["true" if b else "false" for b in c.get("wscript", [])]
     return ("{| wc_step := %d; wc_limit := %d; wc_K := %d; wc_ops := %s; wc_script := %s; wc_accept := %s; "
             "wc_expect := %s; wc_before := %s; wc_writes := %s |}") % (
